@@ -193,7 +193,7 @@ func (e *Engine) findDFA(haystack []byte) *Match {
 
 		// Use anchored search from prefilter position - O(m) not O(n)!
 		// This is much faster than searching the entire haystack
-		start, end, matched := e.pikevm.SearchAt(haystack, pos)
+		start, end, matched := e.pvSearchAt(haystack, pos)
 		if !matched {
 			return nil
 		}
@@ -217,7 +217,7 @@ func (e *Engine) findDFA(haystack []byte) *Match {
 		// For long haystacks, start search closer to the match end
 		estimatedStart = endPos - 100
 	}
-	start, end, matched := e.pikevm.SearchAt(haystack, estimatedStart)
+	start, end, matched := e.pvSearchAt(haystack, estimatedStart)
 	if !matched {
 		return nil
 	}
@@ -258,7 +258,7 @@ func (e *Engine) findAdaptive(haystack []byte) *Match {
 		}
 
 		// Use anchored search from prefilter position - O(m) not O(n)!
-		start, end, matched := e.pikevm.SearchAt(haystack, pos)
+		start, end, matched := e.pvSearchAt(haystack, pos)
 		if !matched {
 			return nil
 		}
@@ -278,7 +278,7 @@ func (e *Engine) findAdaptive(haystack []byte) *Match {
 			if endPos > 100 {
 				estimatedStart = endPos - 100
 			}
-			start, end, matched := e.pikevm.SearchAt(haystack, estimatedStart)
+			start, end, matched := e.pvSearchAt(haystack, estimatedStart)
 			if !matched {
 				return nil
 			}
@@ -300,7 +300,7 @@ func (e *Engine) findAdaptive(haystack []byte) *Match {
 // This preserves absolute positions for correct anchor handling.
 func (e *Engine) findNFAAt(haystack []byte, at int) *Match {
 	atomic.AddUint64(&e.stats.NFASearches, 1)
-	start, end, matched := e.pikevm.SearchAt(haystack, at)
+	start, end, matched := e.pvSearchAt(haystack, at)
 	if !matched {
 		return nil
 	}
@@ -327,7 +327,7 @@ func (e *Engine) findDFAAt(haystack []byte, at int) *Match {
 			return NewMatch(pos, pos+literalLen, haystack)
 		}
 		// Fallback to NFA if LiteralLen not available (e.g., Teddy multi-pattern)
-		start, end, matched := e.pikevm.SearchAt(haystack, at)
+		start, end, matched := e.pvSearchAt(haystack, at)
 		if !matched {
 			return nil
 		}
@@ -344,7 +344,7 @@ func (e *Engine) findDFAAt(haystack []byte, at int) *Match {
 
 	// DFA returns end position, but doesn't track start position
 	// Fall back to NFA to get exact match bounds
-	start, end, matched := e.pikevm.SearchAt(haystack, at)
+	start, end, matched := e.pvSearchAt(haystack, at)
 	if !matched {
 		return nil
 	}
@@ -361,7 +361,7 @@ func (e *Engine) findAdaptiveAt(haystack []byte, at int) *Match {
 		if pos != -1 {
 			e.putSearchState(state)
 			// DFA succeeded - need to find start position from NFA
-			start, end, matched := e.pikevm.SearchAt(haystack, at)
+			start, end, matched := e.pvSearchAt(haystack, at)
 			if matched {
 				return NewMatch(start, end, haystack)
 			}
